@@ -3,7 +3,7 @@
   dropAllIndexes, dropIndexByKey, createIndex.
 -/
 import Lungo.Proofs.SeqDelete
-namespace Lungo.C01
+namespace Lungo.SeqRef
 open Lungo Lungo.Spec
 
 variable {sch : SchemaEval}
@@ -281,4 +281,4 @@ theorem refines_dropIndexByKey (s : Sys) (h : Handle) (key : Doc) (oids : List V
         | error e => rfl
         | ok t => rfl
 
-end Lungo.C01
+end Lungo.SeqRef
